@@ -110,7 +110,7 @@ def run_shard(prop, tier, seed, shard, nshards, out, clause_filter, scale):
             per = max(1, (n + nshards - 1) // nshards)
             s = (seed * 1000 + shard) * 100 + ci
             try:
-                st = harness.drive(prop, clause, per, s, known)
+                st = (harness.drive_stateful if clause.stateful else harness.drive)(prop, clause, per, s, known)
             except (hypothesis.errors.FailedHealthCheck, hypothesis.errors.Unsatisfiable) as e:
                 err = "health check in clause %s: %s" % (clause.name, str(e)[:500])
                 break
